@@ -127,10 +127,10 @@ def minimise(ctx, binp, clis, j):
         cands.append(c)
     p = os.path.join(ctx.scratch, "min_defs.json")
     out = j
-    for k, c in enumerate(cands):          # one farm per candidate: same package name, separate work dirs
+    for k, c in enumerate(cands[:3]):      # one farm per candidate: same package name, separate work dirs
         with open(p, "w") as f:
             json.dump([c], f)
-        terms, jsons, err = run_farm(ctx, binp, clis, ["-defs", p, "-reps", 10], "min%d" % k)
+        terms, jsons, err = run_farm(ctx, binp, clis, ["-defs", p, "-reps", 4, "-stale", "none"], "min%d" % k)
         if err:
             continue
         bad, _, err = ctx.judge_cases(HEADER, "gd_case", "gd_judge", terms, shard=40, tag="min%d" % k)
@@ -223,7 +223,7 @@ def run(ctx):
     quick = ctx.tier == "quick"
     reps = 3 if quick else 20
     terms, jsons, err = run_farm(ctx, binp, clis, ["-n", 3 if quick else 18, "-reps", reps,
-                                                   "-stale-inproc", "first" if quick else "all"], "hash")
+                                                   "-stale", "first" if quick else "all"], "hash")
     if err:
         ctx.report({"unchecked": "hash farm run", "detail": err[-3000:]}, {"kind": "harness"}, failing_input=False)
         return
@@ -250,16 +250,16 @@ def run(ctx):
     # Widened search.  When the only signal so far is a broken tie or an order that departs from the
     # model's comparator (no two generations differed yet), look harder for a definition on which
     # two generations differ: more definitions of the affected generators (those named by the failing
-    # cases and those whose packages gained or lost a map range), 8 generations in one process + 8 in
-    # separate processes each.
+    # cases and those whose packages gained or lost a map range or a package-level variable), 4 + 4
+    # regular generations each plus the stale histories of the first of each stream.
     if not any(c == 1 for _, c in bad) and (bad or not tie_ok):
         affected = sorted({jsons[i]["def"]["gen"] for i, _ in bad} | tie_generators(ctx, tie_ok))
         ctx.log("widened search for two differing generations (%s)" % ",".join(affected))
-        per = 6 if quick else 24
+        per = 4 if quick else 12          # indices; each gives one definition per stream of the generator
         if len(affected) == 1:
-            per *= 2
-        wt, wj, werr = run_farm(ctx, binp, clis, ["-seed", ctx.seed + 7919, "-n", per, "-reps", 8,
-                                                  "-only", ",".join(affected)], "wide")
+            per += 2
+        wt, wj, werr = run_farm(ctx, binp, clis, ["-seed", ctx.seed + 7919, "-n", per, "-reps", 4,
+                                                  "-only", ",".join(affected), "-twin-every", 2], "wide")
         if not werr:
             wbad, _, werr = ctx.judge_cases(HEADER, "gd_case", "gd_judge", wt, shard=40, tag="wide")
         if not werr:
@@ -280,7 +280,7 @@ def run(ctx):
             twos.append((i, c))
     for k, (i, code) in enumerate(ones + twos):
         j = jsons[i]
-        if code == 1 and k < 2:
+        if code == 1 and k < 1:
             j = minimise(ctx, binp, clis, j)
         report_bad(ctx, j, code)
     if len(bad) > len(ones) + len(twos):
@@ -301,8 +301,8 @@ def run(ctx):
         "evaluations": len(jsons),
         "generations": gens,
         "generations_per_definition": "%d in one process (interleaved with another definition / its twin packages, alternating fresh/existing) + %d in separate processes (real CLIs), then the stale-output history "
-                                      "(fresh subset configuration, full over the shorter output, subset over the longer output, over a long foreign file, over a minimal file) in separate processes for every definition and in one process for %s" % (
-                                          reps, reps, "the first of each stream" if quick else "every definition"),
+                                      "(fresh subset configuration, full over the shorter output, subset over the longer output, over a long foreign file, over a minimal file), once in one process and once through the CLI, for %s; every chain in its own copy of the package directory" % (
+                                          reps, reps, "the first definition of each stream" if quick else "every definition"),
         "package_states": gsort_lib.hist(o["state"] for j in jsons for o in j["obs"]),
         "twin_package_batches": len({j["def"].get("batch") for j in jsons if j["def"].get("batch")}),
         "distinct_nontrivial": vlib.distinct_count([j["def"]["source"] for j in produced]),
@@ -347,7 +347,7 @@ def replay(ctx, path):
     p = os.path.join(ctx.scratch, "replay_defs.json")
     with open(p, "w") as f:
         json.dump(rep.get("batch_defs") or [d], f)
-    terms, jsons, err = run_farm(ctx, binp, clis, ["-defs", p, "-reps", 6, "-stale-inproc", "all"], "replay")
+    terms, jsons, err = run_farm(ctx, binp, clis, ["-defs", p, "-reps", 6, "-stale", "all"], "replay")
     if err:
         print(err)
         return 2
